@@ -496,3 +496,77 @@ def leaf_(tag):
 
 
 UNITS += [InitRecord()]
+
+
+# =========================================================================================== Graph.__init__: admissible user buffer sizes
+class _Stop(Exception):
+    pass
+
+
+class BufferAdmission(Unit):
+    """user-supplied buffer_sizes are accepted only if the ring is at least as large as EVERY reader's requirement for that producer
+    (so that no output is overwritten before its last scheduled reader: lemma RB needs size >= requirement); otherwise AssertionError"""
+    name = "Graph.__init__ (buffer_sizes admission)"
+    target = f"{GR}::Graph.__init__"
+    props = ("C08",)
+
+    def configs(self):
+        for form in ("int", "list1", "list2"):
+            for nreq in (1, 2, 3):
+                yield f"size as {form}, {nreq} readers", dict(form=form, nreq=nreq)
+        yield "producer without readers", dict(form="int", nreq=0)
+        yield "no buffer_sizes given", dict(form=None, nreq=2)
+
+    def opts(self, cfg):
+        return {"assert_raises": True}
+
+    def run(self, ctx):
+        ex, cfg = ctx.ex, ctx.cfg
+        req = [z3.Int(f"req{i}") for i in range(cfg["nreq"])]
+        for r in req:
+            ctx.require(r >= 1)
+        sizes_auto = {"p": list(req), "q": [z3.Int("req_q")]}
+        shape2 = Rec("ndarray", dict(shape=(z3.Int("E"), z3.Int("P"))), module=None)
+        graphs_raw = Rec("Graph", dict(vertices={"p": Rec("Vertex", dict(seq=shape2), module=BASE, frozen=True)}, edges={}), module=BASE, frozen=True)
+        timings = Rec("Timings", dict(get_buffer_sizes=lambda ex_: {k: list(v) for k, v in sizes_auto.items()}), module=BASE, frozen=True)
+
+        class S_:
+            def pyvc_getattr(self, ex_, attr):
+                raise _Stop()            # everything after the admission block (supervisor slot lookup ...) is out of this unit's scope
+        ex.summaries["apply_window"] = lambda ex_, o, a, k, n: Rec("WindowedGraph", dict(to_graph=lambda ex2: []), module=None)
+        ex.summaries["to_timings"] = lambda ex_, o, a, k, n: timings
+        ex.lib.ns["supergraph"] = NS("supergraph", {"grow_supergraph": lambda ex_, *a, **k: (S_(), {}, [])})
+        sup = Rec("BaseNode", dict(name="sup"), module=None)
+        p = Rec("BaseNode", dict(name="p"), module=None)
+        user = z3.Int("user_size")
+        user2 = z3.Int("user_size2")
+        given = {None: None, "int": {"p": user}, "list1": {"p": [user]}, "list2": {"p": [user, user2]}}[cfg["form"]]
+        g = Rec("Graph", {}, module=GR)
+        accepted = None
+        try:
+            ctx.call(self_obj=g, args=[{"p": p}, sup, graphs_raw], kwargs=dict(buffer_sizes=given, supergraph=EnumV("Supergraph", "MCS")))
+        except _Stop:
+            accepted = True
+        except RaiseEx as e:
+            accepted = False
+            ctx.ensure("only an AssertionError rejects the sizes", z3.BoolVal(e.exc == "AssertionError"))
+        ctx.ensure("the constructor reaches the end of the admission block or rejects", z3.BoolVal(accepted is not None))
+        if accepted is None:
+            return
+        biggest = user if cfg["form"] in ("int", "list1") else z3.If(user >= user2, user, user2)
+        if cfg["form"] is None:
+            ctx.ensure("without user sizes the automatic sizes are used as they are", z3.BoolVal(accepted and g.f["_buffer_sizes"]["p"] == req))
+            return
+        if accepted:
+            fin = g.f["_buffer_sizes"]["p"]
+            ring = biggest     # Timings.get_output_buffer allocates max(sizes[name]) (+ extra padding >= 0) slots
+            ctx.ensure("C08 accepted user sizes are admissible: the ring is at least as large as EVERY reader's requirement of that producer",
+                       z3.And(*[ring >= r for r in req]) if req else z3.BoolVal(True))
+            ctx.ensure("C08 the accepted sizes are the ones used for that producer, the other producers keep their automatic sizes",
+                       z3.BoolVal(isinstance(fin, list) and len(fin) == (2 if cfg["form"] == "list2" else 1) and g.f["_buffer_sizes"]["q"] == sizes_auto["q"]) if True else None)
+            if isinstance(fin, list):
+                mx = toz(fin[0]) if len(fin) == 1 else z3.If(toz(fin[0]) >= toz(fin[1]), toz(fin[0]), toz(fin[1]))
+                ctx.ensure("C08 ... and their maximum is the user's maximum", mx == biggest)
+
+
+UNITS += [BufferAdmission()]
